@@ -1,8 +1,11 @@
-import XehModel.Driver.Codec
+import XehModel.Driver.Sess
 
 namespace Xeh.Driver.C10
 
-/-- stub: not modelled yet -/
-def handle (_args : List String) : String := "unsupported"
+/-- `C10 sess …`: a history of sources on one interpreter (Driver/Sess.lean) -/
+def handle (args : List String) : String :=
+  match args with
+  | "sess" :: rest => Sess.handle rest
+  | _ => "bad-op"
 
 end Xeh.Driver.C10
